@@ -16,15 +16,18 @@ Open Scope Z_scope.
    (iii) and in the run with the foreign datagrams each delivered one is answered directly by
          exactly one ERROR 5 to its sender, not before its arrival, and nothing else is ever sent
          to a foreign address (foreign_answered).
+   The statement is about the server that needs no time to take a datagram off the socket
+   (proc = 0): handling a datagram costs time whoever sent it, and with proc > 0 what follows a
+   foreign datagram shifts by at most proc (Tftp/TimeProofs.v await_times bounds every try).
    Arrival order is what a socket queue delivers; for scripts that hand a later-stamped foreign
    datagram to the socket before an earlier-stamped peer datagram the statement is false
    (C09_tid_unsorted_refuted): the foreign datagram moves the clock to its own stamp. *)
 Theorem C09_tid_noninterference : forall c oack blocks evs,
-  0 < tmo c -> nondecreasing evs ->
+  0 < tmo c -> proc c = 0 -> nondecreasing evs ->
   fst (transfer_r c oack blocks (client_only evs)) = fst (transfer_r c oack blocks evs) /\
   snd (transfer_r c oack blocks (client_only evs)) = strip_foreign (snd (transfer_r c oack blocks evs)) /\
   foreign_answered (snd (transfer_r c oack blocks evs)) = true.
-Proof. intros c oack blocks evs Ht Hs. apply transfer_tid; [exact Ht|]. apply nondecreasing_sorted. exact Hs. Qed.
+Proof. intros c oack blocks evs Ht Hp Hs. apply transfer_tid; [exact Ht|exact Hp|]. apply nondecreasing_sorted. exact Hs. Qed.
 Print Assumptions C09_tid_noninterference.
 
 (* the same for a complete case (negotiation, reader, transfer): only the default time-out has to
@@ -32,13 +35,13 @@ Print Assumptions C09_tid_noninterference.
 Definition without_foreign (c : tcase) : tcase :=
   {| t_content := t_content c; t_chunks := t_chunks c; t_netascii := t_netascii c; t_options := t_options c;
      t_limits := t_limits c; t_retries := t_retries c; t_wrap := t_wrap c; t_kind := t_kind c;
-     t_events := client_only (t_events c); t_v := t_v c; t_nv := t_nv c; t_na_always_skip := t_na_always_skip c |}.
+     t_events := client_only (t_events c); t_proc := t_proc c; t_v := t_v c; t_nv := t_nv c; t_na_always_skip := t_na_always_skip c |}.
 Theorem C09_tid_noninterference_case : forall c,
-  0 < tmo (t_cfg c) -> nondecreasing (t_events c) ->
+  0 < tmo (t_cfg c) -> t_proc c = 0 -> nondecreasing (t_events c) ->
   run_transfer_case (without_foreign c) = strip_foreign (run_transfer_case c) /\
   foreign_answered (run_transfer_case c) = true.
 Proof.
-  intros c Ht Hs. destruct (C09_tid_noninterference (t_cfg c) (n_oack (t_neg c)) (t_blocks c) (t_events c) Ht Hs)
+  intros c Ht Hp Hs. destruct (C09_tid_noninterference (t_cfg c) (n_oack (t_neg c)) (t_blocks c) (t_events c) Ht Hp Hs)
     as [_ [A B]]. split; [exact A|exact B].
 Qed.
 Print Assumptions C09_tid_noninterference_case.
@@ -53,21 +56,21 @@ Print Assumptions C09_tid_unsorted_refuted.
 (* any ERROR packet from the peer - opcode 00 05, any code, any length >= 2 - ends the transfer
    silently: wherever its reception occurs in the trace, only the two closes follow *)
 Theorem C09_peer_error_silent : forall c pre t d post,
-  t_v c = current ->
+  t_v c = current -> 0 <= t_proc c ->
   run_transfer_case c = pre ++ TRecv t client d :: post ->
   is_error_datagram d = true ->
   post = [TCloseFile; TCloseSock].
-Proof. intros c pre t d post Hv. apply (peer_error_silent (t_cfg c) Hv). Qed.
+Proof. intros c pre t d post Hv Hp. apply (peer_error_silent (t_cfg c) Hv Hp). Qed.
 Print Assumptions C09_peer_error_silent.
 
 (* a datagram from the peer that is invalid (shorter than 2 bytes, opcode other than ACK/ERROR,
    ACK whose length is not 4) is answered with exactly one ERROR 0, then the closes *)
 Theorem C09_invalid_packet_one_error : forall c pre t d post,
-  t_v c = current ->
+  t_v c = current -> 0 <= t_proc c ->
   run_transfer_case c = pre ++ TRecv t client d :: post ->
   classify current d = CInvalid ->
   exists now, t <= now /\ post = [TSend now client (PError 0); TCloseFile; TCloseSock].
-Proof. intros c pre t d post Hv. apply (invalid_packet_one_error (t_cfg c) Hv). Qed.
+Proof. intros c pre t d post Hv Hp. apply (invalid_packet_one_error (t_cfg c) Hv Hp). Qed.
 Print Assumptions C09_invalid_packet_one_error.
 
 (* which datagrams are invalid *)
@@ -91,8 +94,8 @@ Qed.
 Print Assumptions C09_invalid_datagrams.
 
 (* the catch-all exception branch of _process_request is never taken, whatever arrives *)
-Theorem C09_no_logexc : forall c, t_v c = current -> ~ In TLogExc (run_transfer_case c).
-Proof. intros c Hv. apply (transfer_no_logexc (t_cfg c) Hv). Qed.
+Theorem C09_no_logexc : forall c, t_v c = current -> 0 <= t_proc c -> ~ In TLogExc (run_transfer_case c).
+Proof. intros c Hv Hp. apply (transfer_no_logexc (t_cfg c) Hv Hp). Qed.
 Print Assumptions C09_no_logexc.
 
 (* ---------- non-vacuity ---------- *)
@@ -103,7 +106,7 @@ Definition tid_case : tcase :=
      t_kind := KNoFileno;
      t_events := [Recv 3 1 [0; 4; 0; 0]; Recv 5 0 [0; 4; 0; 0]; Recv 5 2 [9]; Recv 700 3 [0; 5; 0; 0; 0];
                   Recv 2100 0 [0; 4; 0; 1]; Recv 2101 1 []; Recv 2102 0 [0; 4; 0; 2]]%N;
-     t_v := current; t_nv := ncurrent; t_na_always_skip := false |}.
+     t_proc := 0; t_v := current; t_nv := ncurrent; t_na_always_skip := false |}.
 Example C09_tid_nonvacuous :
   (0 < tmo (t_cfg tid_case) /\ nondecreasing (t_events tid_case)) /\
   length (run_transfer_case tid_case) = 18%nat /\
@@ -116,12 +119,12 @@ Definition err_case : tcase :=
   {| t_content := [1; 2; 3]%N; t_chunks := []; t_netascii := false; t_options := [];
      t_limits := {| max_bs := 65464; max_tmo := 30; default_tmo := 2 |}; t_retries := 1; t_wrap := Some 0%N;
      t_kind := KNoFileno; t_events := [Recv 7 0 [0; 5; 255; 255]]%N;
-     t_v := current; t_nv := ncurrent; t_na_always_skip := false |}.
+     t_proc := 0; t_v := current; t_nv := ncurrent; t_na_always_skip := false |}.
 Definition inv_case : tcase :=
   {| t_content := [1; 2; 3]%N; t_chunks := []; t_netascii := false; t_options := [];
      t_limits := {| max_bs := 65464; max_tmo := 30; default_tmo := 2 |}; t_retries := 1; t_wrap := Some 0%N;
      t_kind := KNoFileno; t_events := [Recv 7 0 [0; 4; 0; 1; 0]]%N;
-     t_v := current; t_nv := ncurrent; t_na_always_skip := false |}.
+     t_proc := 0; t_v := current; t_nv := ncurrent; t_na_always_skip := false |}.
 Example C09_terminal_nonvacuous :
   run_transfer_case err_case =
     [TSend 0 client (PData 1 [1; 2; 3]%N)] ++ TRecv 7 client [0; 5; 255; 255]%N :: [TCloseFile; TCloseSock] /\
